@@ -31,6 +31,7 @@ type vector struct {
 	Msgs    []msgObs          `json:"msgs,omitempty"`
 	Renders map[string]string `json:"renders,omitempty"` // template|data -> "E" or output
 	JS      map[string]string `json:"js,omitempty"`      // file|fmt|cat -> generated text or "E:<err>"
+	Again   string            `json:"again,omitempty"`   // how a second Compile of the same Bundle differed from the first ("" = same decision, same error text)
 	Trouble string            `json:"-"`
 }
 
@@ -98,7 +99,14 @@ type obsOpts struct {
 // called inside a simulation when the binary is instrumented.
 func observeCase(c *gen.Case, o obsOpts) vector {
 	var v vector
-	cc, err := sut.CompileOrder(c, o.order)
+	cc, bundle, err := sut.CompileBundle(c, o.order)
+	// the same Bundle compiled a second time must decide the same and say the same
+	if cc2, err2 := bundle.Compile(); (err == nil) != (err2 == nil) || (err != nil && err.Error() != err2.Error()) {
+		v.Again = fmt.Sprintf("first Compile: %v; second Compile of the same Bundle: %v", err, err2)
+	} else if err == nil && len(cc2.Templates) != len(cc.Reg.Templates) {
+		v.Again = fmt.Sprintf("first Compile: %d templates; second Compile of the same Bundle: %d", len(cc.Reg.Templates), len(cc2.Templates))
+	}
+	sut.Cleanup()
 	if err != nil {
 		v.Err = err.Error()
 		return v
@@ -195,6 +203,12 @@ func firstDiff(a, b string) string {
 // diffVectors names the first component in which two observations differ ("" if equal).
 // sameOrder: both observations used the same file insertion order (error text must then be equal).
 func diffVectors(a, b vector, sameOrder bool) (string, string) {
+	if a.Again != "" {
+		return "repeated compilation", a.Again
+	}
+	if b.Again != "" {
+		return "repeated compilation", b.Again
+	}
 	if a.Accept != b.Accept {
 		return "accept/reject decision", fmt.Sprintf("accepted=%v (%s) vs accepted=%v (%s)", a.Accept, trunc(a.Err, 200), b.Accept, trunc(b.Err, 200))
 	}
@@ -297,7 +311,7 @@ func c13Check(cs *c13Case, ref vector, plan *simrt.MapPlan, o obsOpts) (*wk.Fail
 	if v.Trouble != "" {
 		return &wk.Failure{Class: "machinery", Detail: v.Trouble}, v, res
 	}
-	comp, detail := diffVectors(ref, v, cs.FileOrder == nil)
+	comp, detail := diffVectors(ref, v, cs.FileOrder == nil || cs.Bundle.OneError)
 	if comp == "" {
 		return nil, v, res
 	}
@@ -561,6 +575,23 @@ func C13(c *wk.Ctx) {
 const perUnitC13 = 4
 
 // c13Gen draws case ci of a unit (the same in every worker mode).
+// c13Compiles reports whether the (not yet damaged) bundle is accepted by the compiler: only then
+// is an injected error the bundle's only error.
+func c13Compiles(gc *gen.Case) bool {
+	ok := false
+	run := func() {
+		_, err := sut.Compile(gc)
+		sut.Cleanup()
+		ok = err == nil
+	}
+	if simrt.Active() {
+		run()
+	} else {
+		inSim(run)
+	}
+	return ok
+}
+
 func c13Gen(c *wk.Ctx, run, ci int) (*gen.Case, int) {
 	r := simrt.NewRNG(c.UnitSeed(run, uint64(1300+ci)))
 	o := c13Opts()
@@ -613,6 +644,48 @@ func c13Gen(c *wk.Ctx, run, ci int) (*gen.Case, int) {
 				}
 			}
 		}
+	}
+	if ci%4 == 0 && run%2 == 1 && c13Compiles(gc) {
+		// exactly one error: a call to a template that does not exist, under a short name that
+		// exists (possibly in several namespaces)
+		var calls []*gen.Node
+		var walk func(ns []*gen.Node)
+		walk = func(ns []*gen.Node) {
+			for _, n := range ns {
+				if n.K == "call" {
+					calls = append(calls, n)
+				}
+				walk(n.Body)
+				walk(n.Else)
+				for _, cd := range n.Conds {
+					walk(cd.Body)
+				}
+			}
+		}
+		var shorts []string
+		for _, ff := range gc.Files {
+			for _, tt := range ff.Templates {
+				walk(tt.Body)
+				shorts = append(shorts, tt.Name)
+			}
+		}
+		sort.Strings(shorts)
+		pick := shorts[r.Intn(len(shorts))]
+		for i := 1; i < len(shorts); i++ {
+			if shorts[i] == shorts[i-1] {
+				pick = shorts[i] // a short name that several namespaces use
+			}
+		}
+		if len(calls) > 0 {
+			calls[r.Intn(len(calls))].Tmpl = "app.nosuch." + pick
+		} else {
+			t := gc.Files[0].Templates[0]
+			t.Body = append(t.Body, &gen.Node{K: "call", Tmpl: "app.nosuch." + pick})
+		}
+		gc.OneError = true
+	}
+	if ci%2 == 0 {
+		gc.GlobalsFile = true
 	}
 	return gc, r.Intn(3)
 }
